@@ -139,6 +139,9 @@ unicode_in_string_list(PyObject *input, const char **list)
     if (!temp) {
         return 0;
     }
+    if (strlen(string) != (size_t) PyBytes_GET_SIZE(temp)) {
+        goto end; // An embedded U+0000: not one of our names
+    }
 
     while (*list) {
         if (!strcmp(*(list++), string)) {
